@@ -38,6 +38,20 @@ def cntname(c):
     return 'zc' + letters(c)
 
 
+def is_reg(c):
+    # every third integer variable is realised as a TeX count register (\newcount\zr.., operand \zr.., \global assignments)
+    # instead of a LaTeX counter (\newcounter{zc..}, operand \value{zc..}, \setcounter ...): same meaning, other code path
+    return int(c) % 3 == 2
+
+
+def regname(c):
+    return 'zr' + letters(c)
+
+
+def REG_SCRATCH(cs):
+    return '\\newcounter{zctmp}' if any(is_reg(c) for c in cs) else ''
+
+
 def swname(n):
     # every other switch name contains "if" again after the prefix (\newif\ifzsifb -> \zsifbtrue / \zsifbfalse)
     return 'zs' + ('if' if int(n) % 2 else '') + letters(n)
@@ -63,7 +77,17 @@ class Printer:
                 self.pre.append('\\newcommand{\\%s}{%d}' % (name, o[1]))
                 return '\\%s' % name
             return '%d' % o[1]
+        if is_reg(o[1]):
+            return '\\%s' % regname(o[1])
         return '\\value{%s}' % cntname(o[1])
+
+    def dimen(self, d, reg):
+        if not reg:
+            return '%s%s' % (d[0], d[1])
+        name = 'zd' + letters(self.nummacros)
+        self.nummacros += 1
+        self.pre.append('\\newdimen\\%s \\%s=%s%s\\relax ' % (name, name, d[0], d[1]))
+        return '\\%s' % name
 
     def test(self, t):
         k = t[0]
@@ -82,7 +106,9 @@ class Printer:
             end = ' ' if len(t) > 2 and t[2] == 'space' and not a[-1:].isalpha() else '\\relax '
             return '\\ifodd%s%s' % (a, end)
         if k == 'dim':
-            return '\\ifdim %s%s%s%s%s\\relax ' % (t[1][0], t[1][1], t[2], t[3][0], t[3][1])
+            # t[4] (printing choice, ignored by the evaluator): bit 0 / bit 1 = first / second dimension through a \newdimen register
+            regs = t[4] if len(t) > 4 else 0
+            return '\\ifdim %s%s%s\\relax ' % (self.dimen(t[1], regs & 1), t[2], self.dimen(t[3], regs & 2))
         if k == 'switch':
             return '\\if%s ' % swname(t[1])
         if k == 'defined':
@@ -178,6 +204,13 @@ class Printer:
             return '\\%s%s ' % (swname(n[1])[0:] , 'true' if n[2] else 'false')
         if k == 'newsw':
             return '\\newif\\if%s ' % swname(n[1])
+        if k in ('step', 'setc', 'addc') and is_reg(n[1]):
+            # LaTeX counter assignments are global: so are these
+            if k == 'setc':
+                return '\\global\\%s=%d\\relax ' % (regname(n[1]), n[2])
+            # (plasTeX's \advance is a stub that only parses its operands, so the sum goes through a scratch LaTeX counter)
+            return '\\setcounter{zctmp}{\\%s}\\addtocounter{zctmp}{%d}\\global\\%s=\\value{zctmp}\\relax ' % (
+                regname(n[1]), 1 if k == 'step' else n[2], regname(n[1]))
         if k == 'step':
             return '\\stepcounter{%s}' % cntname(n[1])
         if k == 'setc':
@@ -206,8 +239,9 @@ def to_source(prog):
     p = Printer()
     body = p.nodes(prog)
     cs = counters_used(prog)
-    pre = ''.join('\\newcounter{%s}' % cntname(c) for c in cs) + ''.join(p.pre)
-    tail = 'Q' + ''.join('\\arabic{%s}Q' % cntname(c) for c in cs)
+    pre = (''.join(('\\newcount\\%s ' % regname(c)) if is_reg(c) else ('\\newcounter{%s}' % cntname(c)) for c in cs) + REG_SCRATCH(cs)
+           + ''.join(p.pre))
+    tail = 'Q' + ''.join(('\\number\\%s Q' % regname(c)) if is_reg(c) else ('\\arabic{%s}Q' % cntname(c)) for c in cs)
     return pre + body + tail, cs
 
 
